@@ -24,6 +24,7 @@ import (
 	"strconv"
 	"strings"
 	"sync"
+	"sync/atomic"
 	"time"
 
 	"github.com/google/uuid"
@@ -43,10 +44,49 @@ type uuidSrc struct {
 	q     []uint64 // values handed out first
 	fresh uint64   // then a counter
 	reads int
+	// gate: the first gateN reads all get gateVal, and none of them returns
+	// before all of them have arrived (concurrent callers draw the same uuid
+	// at the same moment)
+	gateN, gateArrived int
+	gateVal            uint64
+	gateCh             chan struct{}
+	gateAwake          atomic.Int32
+}
+
+func fillUUID(p []byte, v uint64) {
+	for i := range p {
+		p[i] = 0
+	}
+	if len(p) >= 6 {
+		for i := 0; i < 6; i++ {
+			p[i] = byte(v >> (8 * (5 - i)))
+		}
+	}
 }
 
 func (s *uuidSrc) Read(p []byte) (int, error) {
 	s.mu.Lock()
+	if s.gateArrived < s.gateN {
+		s.gateArrived++
+		v, ch := s.gateVal, s.gateCh
+		if s.gateArrived == s.gateN {
+			close(ch)
+		}
+		s.reads++
+		s.mu.Unlock()
+		select {
+		case <-ch:
+		case <-time.After(2 * time.Second):
+		}
+		// second phase: spin until every caller is awake again, so that they
+		// all return within a few nanoseconds of each other
+		n := int32(s.gateN)
+		s.gateAwake.Add(1)
+		for spin := 0; s.gateAwake.Load() < n && spin < 20000000; spin++ {
+		}
+		fillUUID(p, v)
+		return len(p), nil
+	}
 	defer s.mu.Unlock()
 	var v uint64
 	if len(s.q) > 0 {
@@ -1456,6 +1496,119 @@ func concurrent(r *hx.Run, rnd *hx.Rand, p *pool) {
 	w.load()
 }
 
+// collideConcurrent: k goroutines record at the same time and all of them draw
+// the same uuid at the same moment (the scripted source releases them
+// together). The retry loop runs under the store's write lock, so exactly one
+// keeps the value and the others draw again; every update must come back.
+func collideConcurrent(r *hx.Run, rnd *hx.Rand, p *pool) {
+	w := newWorld(r, p)
+	defer w.close()
+	k := 2 + rnd.Intn(4)
+	old := runtime.GOMAXPROCS(k + 2 + rnd.Intn(8))
+	defer runtime.GOMAXPROCS(old)
+	type call struct {
+		op      byte
+		updater string
+		fp      string
+		toks    []int
+		ref     uuid.UUID
+		err     error
+		pan     bool
+	}
+	// some entries first, so that the map is not empty
+	for i := rnd.Intn(3); i > 0; i-- {
+		w.record('v', pickStr(rnd, updaters), pickStr(rnd, fingerprints), pickToks(rnd, p.vs), nil, 0)
+	}
+	calls := make([]*call, k)
+	for i := range calls {
+		c := &call{op: 'e', updater: pickStr(rnd, updaters), fp: pickStr(rnd, fingerprints), toks: pickToks(rnd, p.es)}
+		if rnd.Chance(1, 2) {
+			c.op, c.toks = 'v', pickToks(rnd, p.vs)
+		}
+		calls[i] = c
+	}
+	w.src.mu.Lock()
+	x := w.src.fresh + 1000
+	w.src.fresh = x + 1
+	w.src.gateN, w.src.gateArrived, w.src.gateVal, w.src.gateCh = k, 0, x, make(chan struct{})
+	w.src.gateAwake.Store(0)
+	before := w.src.reads
+	w.src.mu.Unlock()
+	r.Count("collide-concurrent:recorders=" + strconv.Itoa(k))
+	var wg sync.WaitGroup
+	ctx := context.Background()
+	for _, c := range calls {
+		wg.Add(1)
+		go func(c *call) {
+			defer wg.Done()
+			defer func() {
+				if recover() != nil {
+					c.pan = true
+				}
+			}()
+			if c.op == 'e' {
+				es := make([]driver.EnrichmentRecord, len(c.toks))
+				for i, t := range c.toks {
+					es[i] = p.items[t].e
+				}
+				c.ref, c.err = w.st.UpdateEnrichments(ctx, c.updater, driver.Fingerprint(c.fp), es)
+			} else {
+				vs := make([]*claircore.Vulnerability, len(c.toks))
+				for i, t := range c.toks {
+					vs[i] = p.items[t].v
+				}
+				c.ref, c.err = w.st.UpdateVulnerabilities(ctx, c.updater, driver.Fingerprint(c.fp), vs)
+			}
+		}(c)
+	}
+	done := make(chan struct{})
+	go func() { wg.Wait(); close(done) }()
+	select {
+	case <-done:
+	case <-time.After(60 * time.Second):
+		r.Fail("", "concurrent recorders made no progress for 60s")
+		return
+	}
+	w.src.mu.Lock()
+	reads := w.src.reads - before
+	w.src.gateN, w.src.gateArrived = 0, 0
+	w.src.mu.Unlock()
+	// the call that kept x first, the others by the value they drew next
+	sort.SliceStable(calls, func(i, j int) bool { return canon(calls[i].ref) < canon(calls[j].ref) })
+	for i, c := range calls {
+		desc := fmt.Sprintf("%c(updater=%q fp=%q records=%v)", c.op, c.updater, c.fp, c.toks)
+		w.hist = append(w.hist, fmt.Sprintf("concurrently,all-draw-uuid-%d-first:%s", x+1, desc))
+		cands := []uint64{x}
+		used := "1"
+		if canon(c.ref) != x+1 || i > 0 {
+			cands = append(cands, canon(c.ref)-1)
+			used = "2"
+		}
+		if reads != 2*k-1 {
+			used = "?"
+		}
+		line := fmt.Sprintf("rec %c %s %s %s %s", c.op, hx.Hex([]byte(c.updater)), hx.Hex([]byte(c.fp)), joinU(cands), w.recsArg(c.toks))
+		switch {
+		case c.pan:
+			w.r.Op(line, "panic", true)
+		case c.err != nil:
+			w.r.Op(line, "err", true)
+		default:
+			u := &update{kind: c.op, updater: c.updater, fp: c.fp, toks: c.toks, ref: canon(c.ref), desc: desc, cut: -1}
+			if _, dup := w.live[u.ref]; dup {
+				w.r.Fail("", fmt.Sprintf("two concurrent recordings that drew the same uuid both kept it (ref %d): one update replaced the other in the store: %s", u.ref, w.witness()))
+			}
+			w.live[u.ref] = u
+			w.all = append(w.all, u)
+			w.unflushed = true
+			w.r.Op(line, fmt.Sprintf("ref %d used %s", u.ref, used), true)
+		}
+	}
+	w.query()
+	w.store()
+	w.load()
+}
+
 // rawFile hand-makes a file (lines the store would never write included) and
 // compares the real loader with the model on it.
 func rawFile(r *hx.Run, rnd *hx.Rand, p *pool, items []string) {
@@ -1632,6 +1785,11 @@ func Run(cfg hx.Config) error {
 	for i := 0; i < nc && !r.Stop(); i++ {
 		concurrent(r, rnd, p)
 	}
+	ncc := cfg.N(300, 10000)
+	for i := 0; i < ncc && !r.Stop(); i++ {
+		collideConcurrent(r, rnd, p)
+	}
+	r.Notes["concurrent_same_uuid_scenarios"] = ncc
 	nr := cfg.N(1500, 60000)
 	for i := 0; i < nr && !r.Stop(); i++ {
 		rawFile(r, rnd, p, genRaw(rnd, p))
